@@ -114,6 +114,11 @@ struct Dumper {
     O["line"] = line(S->getBeginLoc());
     if (auto *E = dyn_cast<Expr>(S)) {
       O["type"] = ty(E->getType());
+      if (E->getType()->isIntegerType() && !E->getType()->isDependentType()) {
+        // canonical spelling of integral types that are written through typedefs (property_base<uint16_t>::type, std::ptrdiff_t, ...)
+        std::string c = cty(E->getType());
+        if (c != ty(E->getType())) O["ctype"] = c;
+      }
       if (E->isLValue()) O["lv"] = true;
       if (!E->isValueDependent() && !E->isTypeDependent() && E->getType()->isIntegralOrEnumerationType()) {
         Expr::EvalResult R;
@@ -139,6 +144,9 @@ struct Dumper {
     }
     if (auto *E = dyn_cast<ExplicitCastExpr>(S)) {
       O["k"] = "ExplicitCast"; O["cast"] = E->getCastKindName(); O["to"] = ty(E->getTypeAsWritten()); O["e"] = stmt(E->getSubExpr());
+      if (E->getCastKind() == CK_IntegralCast || E->getCastKind() == CK_IntegralToFloating || E->getCastKind() == CK_FloatingToIntegral) {
+        O["from_c"] = cty(E->getSubExpr()->getType()); O["to_c"] = cty(E->getType());
+      }
       return std::move(O);
     }
     if (auto *E = dyn_cast<CallExpr>(S)) {
